@@ -61,6 +61,28 @@ def check(repo: Repo, rep: Report) -> None:
     recv = dotted(sched[0].node.func.value) if sched else None
     ok = recv is not None and any(isinstance(s.node, ast.Assign) and u(s.node.targets[0]) == recv and u(s.node.value) == "CurrentThreadScheduler.singleton()" for s in sites(sub))
     rep.ob("H1-trampolined-subscribe", sub, "the trampoline is the current thread's scheduler", ok, "subscribe does not use the current-thread trampoline")
+    # H5: the deferral covers the scheduler the subscription is actually made with.  The property also quantifies over an
+    # *explicit* immediate / current-thread scheduler passed to subscribe(); the sources schedule their emission steps on that
+    # scheduler, so unless the deferral decision takes it into account a source on a synchronous explicit scheduler starts
+    # (and, being never-ending, keeps running) inside _subscribe_core, before the subscription handle exists.
+    rep.rule("H5-explicit-scheduler", "the deferral in Observable.subscribe takes the subscription's explicit scheduler into account", floor=1)
+    sched_param = next((p_ for p_ in sub.params if p_ == "scheduler"), None)
+    rep.require(sched_param is not None, "Observable.subscribe(scheduler=...) parameter")
+    decide = []
+    for s_ in sites(sub):
+        if isinstance(s_.node, ast.If) and any(isinstance(x, ast.Attribute) and x.attr == "schedule_required" for x in ast.walk(s_.node.test)):
+            decide.append(s_)
+    uses_explicit = False
+    for d_ in decide:
+        names = {x.id for x in ast.walk(d_.node.test) if isinstance(x, ast.Name)}
+        defs = [y.node.value for y in sites(sub) if isinstance(y.node, ast.Assign) and isinstance(y.node.targets[0], ast.Name) and y.node.targets[0].id in names]
+        if sched_param in names or any(isinstance(x, ast.Name) and x.id == sched_param for dv in defs for x in ast.walk(dv)):
+            uses_explicit = True
+    rep.ob("H5-explicit-scheduler", sub, "Observable.subscribe: the trampoline deferral ignores the explicit `scheduler` argument", bool(decide) and uses_explicit,
+           "Observable.subscribe defers the source's subscribe function only through CurrentThreadScheduler.singleton(); with an explicit "
+           "ImmediateScheduler or a fresh CurrentThreadScheduler passed to subscribe(), range / from_iterable / generate / repeat_value run "
+           "their emission steps synchronously inside _subscribe_core, before the subscription handle exists: take(n) cannot cancel them and "
+           "subscribe() does not return after a bounded amount of work")
     sr = repo.fn(TS, "TrampolineScheduler.schedule_required")
     ok = any(isinstance(s.node, ast.Return) and u(s.node.value) == "self.get_trampoline().idle()" for s in sites(sr))
     rep.ob("H1-trampolined-subscribe", sr, "schedule_required() = trampoline.idle()", ok, "schedule_required does not report the trampoline's idle state")
